@@ -86,8 +86,11 @@ def c09(tier, seed):
     ]
     out = []
     k = 0
-    for coll, feed in (("cw20", "real"), ("native", "mock")):
+    # third deployment: vAMMs instantiated *without* an insurance fund (only the owner may open / close them)
+    for coll, feed, nofund in (("cw20", "real", False), ("native", "mock", False), ("cw20", "mock", True)):
         d = dict(base, collateral=coll, feed=feed)
+        if nofund:
+            d = dict(d, vamms=[dict(ifund_none=True), dict(registered=False, ifund_none=True, open=False)])
         pre_common = [block(3700), tx("engine", "add_whitelist", "pauser", dict(address="tr2"))]
         for (c, m, a) in variants:
             if c == "fpool" and m == "remove_token":
@@ -102,6 +105,7 @@ def c09(tier, seed):
         # after a role transfer: the old holder has no rights, the new one exactly these
         transfers = [
             ("vamm1", tx("vamm1", "update_owner", "owner", dict(owner="newowner")), [("vamm1", "update_config", dict(spread=2)), ("vamm1", "set_open", dict(open=False)), ("vamm1", "update_owner", dict(owner="stranger"))]),
+            ("vamm2", tx("vamm2", "update_owner", "owner", dict(owner="newowner")), [("vamm2", "set_open", dict(open=True)), ("vamm2", "set_open", dict(open=False))]),
             ("engine-owner", tx("engine", "update_config", "owner", dict(owner="newowner")), [("engine", "update_config", dict(liqfee=3))]),
             ("engine-pauser", tx("engine", "update_pauser", "pauser", dict(pauser="newowner")), [("engine", "set_pause", dict(pause=True)), ("engine", "add_whitelist", dict(address="tr3")), ("engine", "update_pauser", dict(pauser="stranger"))]),
             ("ifund", tx("ifund", "update_owner", "owner", dict(owner="newowner")), [("ifund", "add_vamm", dict(vamm="vamm2")), ("ifund", "remove_vamm", dict(vamm="vamm1")), ("ifund", "shutdown_vamms", {})]),
@@ -670,32 +674,406 @@ def c10(tier, seed):
             k += 1
     return out
 
+
+# ------------------------------------------------------------------------------------------------
+# Round-4 families: states and inputs that no earlier generator reached
+def zsr(tier, seed):
+    """zero-size position records (a trader flattened by an opposite OpenPosition of exactly the position's
+    value; the engine keeps the record) and everything that can follow: re-opening on either side,
+    a price push by another trader, close / liquidate / margin moves, the same inside a liquidation block,
+    a third party's liquidation next to the record"""
+    out = []
+    k = 0
+    for coll in ("cw20", "native"):
+        native = coll == "native"
+        for (toll, spread) in ((0, 0), (5, 10)):
+            ff = lambda m, lev: fee_funds(native, m, lev, toll, spread)
+            fo = lambda m, lev: (fee_funds(native, m, lev, toll, spread) - m) if native else 0   # fees only
+            for first in ("buy", "sell"):
+                back = "sell" if first == "buy" else "buy"
+                for again in ("buy", "sell"):
+                    other = "sell" if again == "buy" else "buy"
+                    for (m2, lev2) in ((5000, 200), (1000, 1000)):
+                        for push in (0, 3000, 9000):
+                            for pdir in ("fav", "adv"):
+                                if push == 0 and pdir == "adv":
+                                    continue
+                                pside = again if pdir == "fav" else other
+                                base = [block(15), opn("tr1", first, 2000, 100, funds=ff(2000, 100)), block(15),
+                                        opn("tr1", back, 2000, 100, funds=fo(2000, 100)),            # flat, record kept
+                                        query("engine", "position", dict(vamm="vamm1", trader="tr1")), block(15),
+                                        opn("tr1", again, m2, lev2, funds=ff(m2, lev2))]
+                                if push:
+                                    base += [opn("tr2", pside, push, 200, funds=ff(push, 200))]
+                                base += [block(1200), query("engine", "margin_ratio", dict(vamm="vamm1", trader="tr1"))]
+                                tails = [
+                                    [liq("liq", "tr1"), close("tr1"), close("tr2")],
+                                    [close("tr1"), close("tr2")],
+                                    [tx("engine", "withdraw_margin", "tr1", dict(vamm="vamm1", amount=100)), opn("tr1", other, 300, 1000, funds=fo(300, 1000)), close("tr1")],
+                                    [opn("tr1", other, m2 * 2, lev2, funds=ff(m2 * 2, lev2)), close("tr1"), close("tr2")],
+                                ]
+                                for tl in tails:
+                                    out.append(dict(id="zsr-%d" % k, deploy=dep(coll, vamms=[dict(toll=toll, spread=spread)]), ops=base + tl))
+                                    k += 1
+    return out
+
+def zsrliq(tier, seed):
+    """a zero-size record next to someone else's liquidation, and its owner acting in that block"""
+    out = []
+    k = 0
+    for coll in ("cw20", "native"):
+        native = coll == "native"
+        for plr in (0, 25, 100):
+            for order in range(4):
+                flat = [opn("tr3", "buy", 1000, 100, funds=1000 if native else 0), opn("tr3", "sell", 1000, 100)]
+                pre = underwater_prefix(native)
+                l = liq("liq", "tr1")
+                after = [query("engine", "position", dict(vamm="vamm1", trader="tr3")),
+                         opn("tr3", "buy", 500, 200, funds=500 if native else 0),
+                         query("engine", "position", dict(vamm="vamm1", trader="tr3")), block(15),
+                         opn("tr3", "sell", 500, 200, funds=500 if native else 0)]
+                if order == 0:
+                    ops = [block(15)] + flat + pre + [l] + after                 # flattened in an earlier block
+                elif order == 1:
+                    ops = pre + flat + [l] + after                              # flattened, then liquidation, same block
+                elif order == 2:
+                    ops = pre + [l] + flat + after                              # liquidation first
+                else:
+                    ops = pre + flat + [l, close("tr3")] + after
+                out.append(dict(id="zsrliq-%d" % k, deploy=dep(coll, engine=dict(plr=plr)), ops=ops))
+                k += 1
+    return out
+
+def attached(tier, seed):
+    """native collateral: coins attached to calls that take no payment (close, withdraw, liquidate, funding),
+    and more / fewer coins than an open needs"""
+    out = []
+    k = 0
+    for plr in (0, 25):
+        for extra in (1, 150):
+            pre = underwater_prefix(True)
+            trials = [
+                [tx("engine", "liquidate", "liq", dict(vamm="vamm1", trader="tr1", limit=0), funds=extra)],
+                [tx("engine", "liquidate", "tr2", dict(vamm="vamm1", trader="tr1", limit=0), funds=extra)],
+                [tx("engine", "close_position", "tr2", dict(vamm="vamm1", limit=0), funds=extra)],
+                [tx("engine", "withdraw_margin", "tr2", dict(vamm="vamm1", amount=5), funds=extra)],
+                [block(3600), tx("engine", "pay_funding", "stranger", dict(vamm="vamm1"), funds=0),
+                 tx("engine", "pay_funding", "liq", dict(vamm="vamm1"), funds=extra)],
+                [opn("tr3", "buy", 500, 500, funds=500 + extra)],
+                [opn("tr3", "buy", 500, 500, funds=500 - 1)],
+                [tx("engine", "deposit_margin", "tr2", dict(vamm="vamm1", amount=50), funds=50 + extra)],
+            ]
+            for t in trials:
+                out.append(dict(id="att-%d" % k, deploy=dep("native", engine=dict(plr=plr)), ops=pre + t + [close("tr2")]))
+                k += 1
+    return out
+
+def fundzero(tier, seed):
+    """funding settlements that cancel: the cumulative premium fraction returns to exactly 0 while positions
+    hold a non-zero checkpoint; then every way of settling a position"""
+    out = []
+    k = 0
+    for coll in ("cw20", "native"):
+        native = coll == "native"
+        for side in ("buy", "sell"):
+            for off in (10, 40):
+                for mid in ("withdraw", "deposit", "none"):
+                    for tail in ("close", "withdraw", "liquidate", "reduce", "reverse"):
+                        # tr1 holds the position under test, tr2 balances the book so that the TWAP stays put
+                        day = 86400
+                        ops = [block(15), opn("tr1", side, 3000, 200, funds=3000 if native else 0), block(3601),
+                               query("vamm1", "twap_price", dict(interval=3600)),
+                               dict(k="oracle_rel", v="vamm1", off=off), block(day),
+                               tx("engine", "pay_funding", "stranger", dict(vamm="vamm1"))]
+                        if mid == "withdraw":
+                            ops.append(tx("engine", "withdraw_margin", "tr1", dict(vamm="vamm1", amount=10)))
+                        elif mid == "deposit":
+                            ops.append(tx("engine", "deposit_margin", "tr1", dict(vamm="vamm1", amount=10), funds=10 if native else 0))
+                        ops += [dict(k="oracle_rel", v="vamm1", off=-off), block(day),
+                                tx("engine", "pay_funding", "stranger", dict(vamm="vamm1")),
+                                query("engine", "cumulative_premium_fraction", dict(vamm="vamm1"))]
+                        osd = "sell" if side == "buy" else "buy"
+                        if tail == "close":
+                            ops.append(close("tr1"))
+                        elif tail == "withdraw":
+                            ops.append(tx("engine", "withdraw_margin", "tr1", dict(vamm="vamm1", amount=10)))
+                        elif tail == "liquidate":
+                            ops.append(liq("liq", "tr1"))
+                        elif tail == "reduce":
+                            ops.append(opn("tr1", osd, 500, 200))
+                        else:
+                            ops.append(opn("tr1", osd, 6000, 200, funds=6000 if native else 0))
+                        ops.append(close("tr1"))
+                        out.append(dict(id="fz-%d" % k, deploy=dep(coll, vamms=[dict(period=86400)]), ops=ops))
+                        k += 1
+    return out
+
+def _swap_in(x, y, dirn, q):
+    """vAMM swap_input(dir, quote q) on reserves (x, y): new reserves (input side only: used to *aim* trades)"""
+    k = x * y
+    xa = x + q if dirn == "add" else x - q
+    if xa <= 0:
+        return None
+    ya = k // xa
+    bought = abs(ya - y)
+    if k % xa:
+        bought = bought - 1 if dirn == "add" else bought + 1
+    return (xa, y - bought if dirn == "add" else y + bought)
+
+def c07edge(tier, seed):
+    """the spot price pushed *exactly onto* the edge of the per-block band (the last admissible price), the
+    victim liquidated, another trader opening / closing in that same block"""
+    out = []
+    k = 0
+    for fl in (5, 10):
+        for vside in ("buy", "sell"):
+            pdirn = "rem" if vside == "buy" else "add"
+            pside = "sell" if vside == "buy" else "buy"
+            for coll in ("cw20", "native"):
+                native = coll == "native"
+                x, y = 100000, 10000
+                ops = [block(15)]
+                # victim: 10x, price impact inside the band
+                vm = 200 if fl == 5 else 400
+                ops.append(opn("tr1", vside, vm, 1000, funds=vm if native else 0))
+                x, y = _swap_in(x, y, "add" if vside == "buy" else "rem", vm * 10)
+                hit = False
+                for rnd in range(4):
+                    ops.append(block(901))
+                    p0 = x * D // y
+                    up, lo = p0 * (D + fl) // D, p0 * (D - fl) // D
+                    edge = lo if pdirn == "rem" else up
+                    # largest push whose end price is still admissible; remember whether it lands on the edge itself
+                    best = None
+                    for q in range(100, 12000, 1):
+                        r = _swap_in(x, y, pdirn, q)
+                        if r is None:
+                            break
+                        pr = r[0] * D // r[1]
+                        if lo <= pr <= up:
+                            best = (q, r, pr)
+                        else:
+                            break
+                    if best is None:
+                        break
+                    q, r, pr = best
+                    m = q // 10 if q % 10 == 0 else None
+                    if m is None:
+                        # margin x 10x must give exactly q: fall back to 1x
+                        ops.append(opn("tr2", pside, q, 100, funds=q if native else 0))
+                    else:
+                        ops.append(opn("tr2", pside, m, 1000, funds=m if native else 0))
+                    x, y = r
+                    hit = hit or pr == edge
+                    ops += [query("engine", "margin_ratio", dict(vamm="vamm1", trader="tr1")), query("vamm1", "spot_price", {}),
+                            sweep_free(liq("liq", "tr1"))]
+                ops += [opn("tr3", vside, 50, 200, funds=50 if native else 0), close("tr3"), close("tr2")]
+                out.append(dict(id="c07e-%d" % k, deploy=dep(coll, engine=dict(mmr=5, imr=5, plr=0 if k % 2 else 25), vamms=[dict(fluct=fl)]), ops=ops))
+                k += 1
+    return out
+
+def sweep_free(o):
+    return o
+
+def c14f(tier, seed):
+    """gates closed *after* a history: funding settled, positions open, then the vAMM is de-registered / closed /
+    the engine paused, then every operation"""
+    out = []
+    k = 0
+    for coll in ("cw20", "native"):
+        native = coll == "native"
+        for gate in ("remove", "close", "pause", "remove+readd", "none"):
+            gates = {"remove": [tx("ifund", "remove_vamm", "owner", dict(vamm="vamm1"))],
+                     "close": [tx("vamm1", "set_open", "owner", dict(open=False))],
+                     "pause": [tx("engine", "set_pause", "owner", dict(pause=True))],
+                     "remove+readd": [tx("ifund", "remove_vamm", "owner", dict(vamm="vamm1")), tx("ifund", "add_vamm", "owner", dict(vamm="vamm1"))],
+                     "none": []}[gate]
+            trials = [
+                opn("tr3", "buy", 500, 500, funds=500 if native else 0),
+                opn("tr2", "buy", 100, 1000, funds=100 if native else 0),
+                close("tr2"),
+                tx("engine", "deposit_margin", "tr2", dict(vamm="vamm1", amount=50), funds=50 if native else 0),
+                tx("engine", "withdraw_margin", "tr2", dict(vamm="vamm1", amount=5)),
+                liq("liq", "tr1"),
+                tx("engine", "pay_funding", "stranger", dict(vamm="vamm1")),
+            ]
+            for t in trials:
+                ops = underwater_prefix(native) + [block(3600), tx("engine", "pay_funding", "stranger", dict(vamm="vamm1")),
+                                                  block(3600), tx("engine", "pay_funding", "liq", dict(vamm="vamm1")), block(3600)] + gates + [
+                       query("ifund", "is_vamm", dict(vamm="vamm1")), t]
+                out.append(dict(id="c14f-%d" % k, deploy=dep(coll, vamms=[{}, {}]), ops=ops))
+                k += 1
+    return out
+
+def c12hi(tier, seed):
+    """fee ratios anywhere in [0, 1], also summing to more than 1; dust notionals"""
+    out = []
+    k = 0
+    for coll in ("cw20", "native"):
+        native = coll == "native"
+        for (toll, spread) in ((60, 70), (100, 100), (50, 100), (100, 0), (0, 100), (33, 67), (99, 2)):
+            for (m, lev) in ((1000, 200), (37, 1000), (3, 100)):
+                ff = fee_funds(native, m, lev, toll, spread)
+                fo = (ff - m) if native else 0
+                ops = [block(15), opn("tr1", "buy", m, lev, funds=ff), block(15),
+                       opn("tr1", "sell", m // 2 + 1, lev, funds=fo * 0 + (fee_funds(native, m // 2 + 1, lev, toll, spread) - (m // 2 + 1) if native else 0)),
+                       block(15), opn("tr1", "sell", 3 * m, lev, funds=fee_funds(native, 3 * m, lev, toll, spread)), block(15),
+                       close("tr1"),
+                       opn("tr2", "sell", m, lev, funds=ff), tx("engine", "deposit_margin", "tr2", dict(vamm="vamm1", amount=7), funds=7 if native else 0),
+                       tx("engine", "withdraw_margin", "tr2", dict(vamm="vamm1", amount=3)), close("tr2")]
+                out.append(dict(id="c12hi-%d" % k, deploy=dep(coll, trader_bal=5000000, vamms=[dict(toll=toll, spread=spread)]), ops=ops))
+                k += 1
+    return out
+
+def c15sub(tier, seed):
+    """consecutive blocks inside one second (sub-second block times) with several trades each, next to the band edge"""
+    out = []
+    k = 0
+    for fl in (5, 2):
+        for side in ("buy", "sell"):
+            for (a1, a2, a3) in ((1000, 2000, 2000), (500, 2200, 900), (2000, 300, 2300), (100, 2400, 2400)):
+                sc = 1 if fl == 5 else 0.4
+                a1, a2, a3 = int(a1 * sc), int(a2 * sc), int(a3 * sc)
+                for gap in (dict(dt=0, dns=400000000), dict(dt=0, dns=999999999), dict(dt=1, dns=0)):
+                    ops = [dict(k="block", dh=1, dt=15, dns=0), opn("tr1", side, a1, 100),
+                           dict(k="block", dh=1, **gap), opn("tr2", side, a2, 100), opn("tr1", side, a3, 100), opn("tr3", side, a3, 100),
+                           dict(k="block", dh=1, **gap), opn("tr2", side, a2, 100), close("tr1"), opn("tr3", side, a3, 100),
+                           query("vamm1", "twap_price", dict(interval=900))]
+                    out.append(dict(id="c15s-%d" % k, deploy=dep("cw20", engine=dict(plr=25), vamms=[dict(fluct=fl)]), ops=ops))
+                    k += 1
+    return out
+
+def c18long(tier, seed):
+    """a long market history: a trade in each of 130 / 260 blocks (one reserve snapshot per block), then TWAPs over
+    intervals shorter than, equal to and longer than the history"""
+    out = []
+    rng = random.Random(seed)
+    for j, (nblk, gap) in enumerate(((130, 6), (260, 6), (140, 61))):
+        ops = []
+        for i in range(nblk):
+            ops.append(block(gap))
+            d = "add" if (i // 7) % 2 == 0 else "rem"
+            ops.append(tx("vamm1", "swap_input", "drv", dict(dir=d, amount=200 + 13 * (i % 5), limit=0, over=False)))
+        for iv in (60, 300, 600, 601, 900, 3600, nblk * gap, nblk * gap + 500, 86400):
+            ops.append(query("vamm1", "twap_price", dict(interval=iv)))
+        ops += [query("vamm1", "input_twap", dict(dir="add", amount=500)), query("vamm1", "output_twap", dict(dir="rem", amount=50))]
+        out.append(dict(id="c18long-%d" % j, deploy=dep("cw20", direct=True), ops=ops))
+    # the engine's funding settlement over a long history (the vAMM TWAP it uses)
+    ops = [block(15), opn("tr1", "buy", 500, 200)]
+    for i in range(120):
+        ops += [block(31), opn("tr2", "buy" if i % 2 == 0 else "sell", 300, 100)]
+    ops += [tx("engine", "pay_funding", "stranger", dict(vamm="vamm1")), query("engine", "cumulative_premium_fraction", dict(vamm="vamm1"))]
+    out.append(dict(id="c18long-f", deploy=dep("cw20"), ops=ops))
+    return out
+
+def c13flat(tier, seed):
+    """twin scenarios: a position closed through an opposite OpenPosition of exactly its value, with fees, with the
+    vault short of the equity owed (another trader's margin left with a profit) or ample"""
+    out = []
+    k = 0
+    for (toll, spread) in ((10, 0), (5, 10), (0, 0), (1, 1)):
+        for vside in ("buy", "sell"):
+            for (m2, lev2) in ((3500, 1000), (500, 1000), (0, 0)):
+                for delta in (0, 1, -1):
+                    ops = [block(15), opn("tr1", vside, 2500, 1000)]
+                    if m2:
+                        ops.append(opn("tr2", vside, m2, lev2))
+                    ops += [block(15), dict(k="flatten", s="tr1", v="vamm1", delta=delta),
+                            query("engine", "position", dict(vamm="vamm1", trader="tr1")), close("tr1"), close("tr2")]
+                    out.append(dict(id="c13flat-%d" % k, deploy=dep("cw20", vamms=[dict(toll=toll, spread=spread)]), ops=ops))
+                    k += 1
+    return out
+
+def selfliq(tier, seed):
+    """a trader liquidating their own position: ratio above zero, below zero, partial and whole paths"""
+    out = []
+    k = 0
+    for coll in ("cw20", "native"):
+        native = coll == "native"
+        for plr in (0, 25, 100):
+            for mmr in (5, 10):
+                for push in (2500, 3500, 4500, 6000, 9000):
+                    ops = underwater_prefix(native, push=push) + [
+                        query("engine", "margin_ratio", dict(vamm="vamm1", trader="tr1")),
+                        liq("tr1", "tr1"), query("engine", "position", dict(vamm="vamm1", trader="tr1")),
+                        liq("tr2", "tr2"), block(15), liq("tr1", "tr1"), close("tr1"), close("tr2")]
+                    out.append(dict(id="selfliq-%d" % k, deploy=dep(coll, engine=dict(plr=plr, mmr=mmr, imr=10)), ops=ops))
+                    k += 1
+    return out
+
+
+FAMILIES = ["c02lp", "c04", "c04r", "c04p", "c05", "c06", "c06f", "c07", "c08", "c10", "c16", "c17", "c03",
+            "zsr", "zsrliq", "attached", "fundzero", "c07edge", "c14f", "c12hi", "c15sub", "selfliq", "c13flat"]
+
+def pool(tier, seed, cap=200, exclude=(), only_cw20=False):
+    """a seeded sample across ALL scenario families: every engine property is also judged on the inputs that
+    were written with another property in mind (a defect rarely respects that attribution)"""
+    rng = random.Random(seed * 977 + 5)
+    out = []
+    per = max(4, cap // max(1, len(FAMILIES) - len(exclude)))
+    for f in FAMILIES:
+        if f in exclude:
+            continue
+        scns = globals()[f](tier, seed)
+        scns = [x for x in scns if not any(o.get("k") == "sweep" for o in x.get("ops", []))]
+        if only_cw20:
+            scns = [x for x in scns if x.get("deploy", {}).get("collateral", "cw20") == "cw20"]
+        if len(scns) > per:
+            scns = rng.sample(scns, per)
+        out += [dict(x, id="pool-" + x["id"]) for x in scns]
+    return out
+
+def samp(scns, n, seed):
+    if len(scns) <= n:
+        return scns
+    return random.Random(seed * 31 + len(scns)).sample(scns, n)
+
+ENGINE_PROPS = ("C02", "C03", "C04", "C05", "C06", "C07", "C08", "C10", "C11", "C12", "C16", "C20")
+
 def for_property(pid, tier, seed):
+    q = tier == "quick"
+    n = 160 if q else 100000
+    out = []
     if pid == "C09":
-        return [("c09matrix", c09(tier, seed))]
+        out = [("c09matrix", c09(tier, seed))]
     if pid == "C14":
-        return [("c14gates", c14(tier, seed))]
+        out = [("c14gates", c14(tier, seed)), ("c14after", c14f(tier, seed))]
     if pid == "C20":
-        return [("c20config", c20(tier, seed))]
+        out = [("c20config", c20(tier, seed))]
     if pid == "C08":
-        return [("c08sweeps", c08(tier, seed)), ("c06liq", c06(tier, seed)), ("c07vault", c07(tier, seed))]
+        out = [("c08sweeps", c08(tier, seed)), ("c06liq", c06(tier, seed)), ("c07vault", c07(tier, seed)),
+               ("selfliq", selfliq(tier, seed)), ("attached", attached(tier, seed)), ("zsrliq", zsrliq(tier, seed))]
     if pid == "C16":
-        return [("c16orderings", c16(tier, seed)), ("c06liq", c06(tier, seed))]
+        out = [("c16orderings", c16(tier, seed)), ("c06liq", c06(tier, seed)), ("zsrliq", zsrliq(tier, seed)), ("selfliq", selfliq(tier, seed))]
     if pid == "C03":
-        return [("c03fpool", c03(tier, seed)), ("c08sweeps", c08(tier, seed))]
+        out = [("c03fpool", c03(tier, seed)), ("c08sweeps", c08(tier, seed)), ("attached", attached(tier, seed)),
+               ("selfliq", selfliq(tier, seed)), ("c12hi", c12hi(tier, seed))]
     if pid == "C05":
-        return [("c05lev", c05(tier, seed)), ("c08sweeps", c08(tier, seed))]
-    if pid in ("C02", "C06", "C07", "C08x"):
-        return [("c02lowprice", c02lp(tier, seed)), ("c06funding", c06f(tier, seed)), ("c04funding", c04(tier, seed)), ("c06liq", c06(tier, seed)), ("c07vault", c07(tier, seed)), ("c08sweeps", c08(tier, seed)), ("c16orderings", c16(tier, seed))]
+        out = [("c05lev", c05(tier, seed)), ("c08sweeps", c08(tier, seed)), ("attached", attached(tier, seed)), ("fundzero", fundzero(tier, seed))]
+    if pid in ("C02", "C06", "C07"):
+        out = [("c02lowprice", c02lp(tier, seed)), ("c06funding", c06f(tier, seed)), ("c04funding", c04(tier, seed)), ("c06liq", c06(tier, seed)),
+               ("c07vault", c07(tier, seed)), ("c08sweeps", c08(tier, seed)), ("c16orderings", c16(tier, seed)),
+               ("zsr", samp(zsr(tier, seed), n, seed)), ("zsrliq", zsrliq(tier, seed)), ("selfliq", selfliq(tier, seed)), ("c07edge", c07edge(tier, seed))]
     if pid == "C10":
-        return [("c10alias", c10(tier, seed)), ("c08sweeps", c08(tier, seed)), ("c16orderings", c16(tier, seed)), ("c07vault", c07(tier, seed))]
+        out = [("c10alias", c10(tier, seed)), ("c08sweeps", c08(tier, seed)), ("c16orderings", c16(tier, seed)), ("c07vault", c07(tier, seed)),
+               ("zsrliq", zsrliq(tier, seed)), ("zsr", samp(zsr(tier, seed), n // 2, seed))]
     if pid in ("C12", "C04"):
-        return [("c04reverse", c04r(tier, seed)), ("c04partial", c04p(tier, seed)), ("c04funding", c04(tier, seed)), ("c08sweeps", c08(tier, seed)), ("c16orderings", c16(tier, seed)), ("c07vault", c07(tier, seed))]
+        out = [("c04reverse", c04r(tier, seed)), ("c04partial", c04p(tier, seed)), ("c04funding", c04(tier, seed)), ("c08sweeps", c08(tier, seed)),
+               ("c16orderings", c16(tier, seed)), ("c07vault", c07(tier, seed)), ("c12hi", c12hi(tier, seed)), ("fundzero", fundzero(tier, seed)),
+               ("zsr", samp(zsr(tier, seed), n // 2, seed))]
     if pid == "C17":
-        return [("c17stale", c17(tier, seed))]
+        out = [("c17stale", c17(tier, seed))]
     if pid == "C11":
-        return [("c04partial", c04p(tier, seed)), ("c04funding", c04(tier, seed)), ("c06funding", c06f(tier, seed))]
-    return []
+        out = [("c04partial", c04p(tier, seed)), ("c04funding", c04(tier, seed)), ("c06funding", c06f(tier, seed)), ("fundzero", fundzero(tier, seed)),
+               ("c18long", c18long(tier, seed)[-1:])]
+    if pid == "C15":
+        out = [("c15sub", c15sub(tier, seed)), ("c07edge", c07edge(tier, seed))]
+    if pid == "C18":
+        out = [("c18long", c18long(tier, seed)), ("c15sub", c15sub(tier, seed))]
+    if pid in ENGINE_PROPS:
+        # every engine property is also judged on a sample of all other families
+        out.append(("pool", pool(tier, seed, cap=220 if q else 4000)))
+    return out
 
 
 # ------------------------------------------------------------------------------------------------
